@@ -98,12 +98,18 @@ def run_case(tape, tier):
         H = iops["H"]
         return H.block.value != iops["_box"]
 
+    def pre2(**iops):
+        # a box's second entry precondition, with a switch of its own: every attempt evaluates both from scratch
+        H = iops["H"]
+        return H.block2.value != iops["_box"]
+
     def fun(H, bx, go, do, on, at, be):
         for i, b in enumerate(boxes):
             over = None if b["over"] is None else boxes[b["over"]]["name"]
             bx(b["name"], over)
             if b["pre"]:
                 do(pre, "predo")
+                do(pre2, "predo")
             for c in CTX:
                 for k in range(b["acts"][c]):
                     do(rec, c, tag="%s.%s.%d" % (b["name"], c, k))
@@ -115,6 +121,7 @@ def run_case(tape, tier):
     hold = boxer.hold
     hold["cmd"] = Bag(value=())
     hold["block"] = Bag(value=None)
+    hold["block2"] = Bag(value=None)
     endkey = ("", "boxer", "bxr", "end")
     hold[endkey] = Bag(value=False)
     # ---- model
@@ -175,7 +182,7 @@ def run_case(tape, tier):
             cand = [x for x in endos if boxes[x]["pre"]]
             if cand:
                 block = boxes[cand[s["block_ix"] % len(cand)]]["name"]
-        cmds.append(dict(cmd=tuple(tokens), block=block, end=False))
+        cmds.append(dict(cmd=tuple(tokens), block=block, which=(s["pick"] // 4 + s["block_ix"]) % 2, end=False))
         if block is not None:
             res.probes["failing_precondition"] += 1
             res.faults["failing_precondition"] += 1
@@ -214,7 +221,9 @@ def run_case(tape, tier):
             if c < len(cmds):
                 k = cmds[c]
                 hold.cmd.value = k["cmd"] or ()
-                hold.block.value = k["block"]
+                # which of the box's two preconditions refuses the entry
+                hold.block.value = k["block"] if not k.get("which") else None
+                hold.block2.value = k["block"] if k.get("which") else None
                 hold[endkey].value = k["end"]
             cur[0] = c
             cyc[0] += 1
